@@ -57,8 +57,8 @@ def havoc_value(sx, rec, old, ty, label):
             return ('adt', old[1], old[2], tuple(
                 havoc_value(sx, rec, f, ftys[i] if i < len(ftys) else None, label + '.' + str(names[i]))
                 for i, f in enumerate(old[3])))
-    if old[0] == 'tuple' and ty is not None and ty.get('k') == 'tuple':
-        el = ty.get('elems') or [None] * len(old[1])
+    if old[0] == 'tuple':
+        el = ((ty or {}).get('elems') if (ty or {}).get('k') == 'tuple' else None) or [None] * len(old[1])
         return ('tuple', tuple(havoc_value(sx, rec, f, el[i] if i < len(el) else None, label + '.' + str(i))
                                for i, f in enumerate(old[1])))
     if old[0] == 'ref':
@@ -264,3 +264,183 @@ def step_no_hook(sx, st):
         finally:
             sx.loop_hook = saved
     return sx.exec_terminator(st, fr, block['term'])
+
+
+def closure_loop(sx, st, fr, term, iter_val, clo, acc_init, mode):
+    """Iterator::for_each / try_for_each / fold with a closure, summarised like a loop:
+    havoc of the places the closure writes (+ the accumulator) and one symbolic call.
+    Returns [(state, result value)] for the code after the call."""
+    from .models import ok as mk_ok, err as mk_err
+    for k, r in st.active_loops.items():
+        if not r.get('suspended'):
+            raise Unsupported('nested loop (closure-driven) at %s' % sx.where(fr, term))
+    rec = {'id': len(sx.loop_records), 'key': ('closure', len(sx.loop_records)), 'head': None, 'def': fr.def_id,
+           'where': sx.where(fr, term), 'havoc_syms': [], 'closure_driven': mode}
+    sx.loop_records.append(rec)
+    live_fids = set(f.fid for f in st.frames)
+    pre_cells = set(st.cells.keys())
+    acc_cell = sx.new_heap(None, None)
+    st.cells[acc_cell] = acc_init if acc_init is not None else T.UNIT
+    pre_cells.add(acc_cell)
+    it_sym = sx.resolve_deep(st, iter_val)
+    # element type from the closure's parameter
+    cv = clo
+    while cv[0] == 'ref':
+        cv = sx.read_cell(st, cv[1], cv[2])
+    while cv[0] == 'op' and cv[1] == 'ref':
+        cv = cv[2][0]
+    if cv[0] != 'closure' or cv[2] is None:
+        raise Unsupported('closure-driven loop with an opaque callable')
+    insts = sx._insts_by_id[cv[2][0]]
+    cbody = sx.facts.bodies[insts[cv[2][1]]['def']]
+    elem_ty = cbody['locals'][cbody['arg_count']]['ty'] if cbody['arg_count'] >= 2 else None
+
+    def preexisting(cell):
+        return cell in pre_cells or (cell[0] in live_fids)
+    W = {(acc_cell, ())}
+    outer_writes = st.writes
+    for rnd in range(8):
+        rec['havoc_syms'] = []
+        s0 = st.copy()
+        havoc, init = {}, {}
+        for n, (cell, path) in enumerate(sorted(W, key=repr)):
+            if cell not in s0.cells:
+                continue
+            try:
+                old = sx.read_cell(s0, cell, path)
+            except (Infeasible, Unsupported):
+                continue
+            if old == UNINIT:
+                continue
+            ty = type_of_loc(sx, cell, path)
+            label = 'acc' if cell == acc_cell else loc_label(sx, fr, cell, path, n)
+            new = havoc_value(sx, rec, old, ty, label) if not (cell == acc_cell and old == T.UNIT) else old
+            init[(cell, path)] = sx.resolve_deep(st, old)
+            havoc[(cell, path)] = new
+            sx.write_cell(s0, cell, path, new, log=False)
+        cell_havoc = {}
+        for c in set(c for c, _ in havoc):
+            try:
+                cell_havoc[c] = sx.resolve_deep(s0, sx.read_cell(s0, c, ()))
+            except (Infeasible, Unsupported):
+                pass
+        s_exit = s0.copy()
+        s0.active_loops = dict(s0.active_loops)
+        s0.active_loops[rec['key']] = rec
+        s0.writes = []
+        g0, e0 = len(s0.guard), len(s0.events)
+        # one call of the closure on a fresh element
+        e = sx.fresh('elem', elem_ty)
+        if elem_ty is not None and elem_ty.get('k') == 'ref':
+            cid = sx.new_heap(None, elem_ty.get('inner'))
+            inner = sx.named(e[1] + '*', elem_ty.get('inner'))
+            s0.cells[cid] = inner
+            ev, shown = ('ref', cid, ()), inner
+        else:
+            ev, shown = e, e
+        s0.events.append(('next', it_sym, shown))
+        args = ('tuple', ((sx.read_cell(s0, acc_cell, ()), ev) if mode == 'fold' else (ev,)))
+        tmp = sx.new_heap(None, None)
+        r = sx.call_closure_value(s0, s0.frames[-1], clo, args, (tmp, ()), ('stop', rec['key']))
+        if r is None:
+            raise Unsupported('closure-driven loop: callable is not a local closure')
+        backs, earlies, terms = [], [], []
+        work = [s0]
+        steps = 0
+        while work:
+            cur = work.pop()
+            while True:
+                steps += 1
+                if steps > 1000000:
+                    raise Unsupported('closure loop budget')
+                try:
+                    nxt = sx.step(cur)
+                except Infeasible:
+                    nxt = []
+                cont = []
+                for n_ in nxt:
+                    if n_.done is not None:
+                        if n_.done[0] == 'closure_ret' and n_.done[2] == rec['key']:
+                            val = n_.done[1]
+                            n_.done = None
+                            if mode == 'fold':
+                                sx.write_cell(n_, acc_cell, (), val)
+                                backs.append(n_)
+                            elif mode == 'try_for_each':
+                                for s2, v2 in sx.models.expand_enum(n_, val):
+                                    if v2[2] == 0:
+                                        backs.append(s2)
+                                    else:
+                                        earlies.append((s2, v2))
+                            else:
+                                backs.append(n_)
+                        else:
+                            terms.append(n_)
+                    else:
+                        cont.append(n_)
+                if len(cont) == 1:
+                    cur = cont[0]
+                    continue
+                work.extend(cont)
+                break
+        Wn = set()
+        for s in backs + [x for x, _ in earlies] + terms:
+            for (cell, path) in s.writes or []:
+                if preexisting(cell):
+                    Wn.add((cell, path))
+        Wn = minimal(W | Wn)
+        if all(covered(l, W) for l in Wn):
+            break
+        W = Wn
+    else:
+        raise Unsupported('closure loop write set did not stabilise at %s' % rec['where'])
+    rec['init'], rec['havoc'] = init, havoc
+    cells_w = sorted(set(c for c, _ in havoc), key=repr)
+    rec['cell_labels'] = {c: ('acc' if c == acc_cell else loc_label(sx, fr, c, (), 0)) for c in cells_w}
+    rec['cell_init'] = {}
+    rec['cell_havoc'] = cell_havoc
+    for c in cells_w:
+        try:
+            rec['cell_init'][c] = sx.resolve_deep(st, sx.read_cell(st, c, ()))
+        except (Infeasible, Unsupported):
+            pass
+    rec['labels'] = {loc: rec['cell_labels'].get(loc[0], '?') for loc in havoc}
+    steps_out = []
+    for s in backs:
+        post, cell_post = {}, {}
+        for loc in havoc:
+            try:
+                post[loc] = sx.resolve_deep(s, sx.read_cell(s, loc[0], loc[1]))
+            except (Infeasible, Unsupported):
+                post[loc] = ('unknown', 'unreadable')
+        for c in cells_w:
+            try:
+                cell_post[c] = sx.resolve_deep(s, sx.read_cell(s, c, ()))
+            except (Infeasible, Unsupported):
+                cell_post[c] = ('unknown', 'unreadable')
+        steps_out.append({'guard': s.guard[g0:], 'events': s.events[e0:], 'post': post, 'cell_post': cell_post, 'unknowns': list(s.unknowns)})
+    rec['steps'] = steps_out
+    rec['n_exits'] = 1 + len(earlies)
+    rec['n_terms'] = len(terms)
+    # normal exit: the iterator is exhausted, state = havocked state
+    s_exit.events.append(('next', it_sym, None))
+    rec['exit_guards'] = [[]] + [s.guard[g0:] for s, _ in earlies]
+    rec['exit_events'] = [[('next', it_sym, None)]] + [s.events[e0:] for s, _ in earlies]
+    out = []
+    s_exit.loops = s_exit.loops + [rec['id']]
+    if mode == 'fold':
+        out.append((s_exit, sx.read_cell(s_exit, acc_cell, ())))
+    elif mode == 'try_for_each':
+        out.append((s_exit, mk_ok(T.UNIT)))
+    else:
+        out.append((s_exit, T.UNIT))
+    for s, v in earlies:
+        s.active_loops = {k: x for k, x in s.active_loops.items() if k != rec['key']}
+        s.loops = s.loops + [rec['id']]
+        s.writes = (outer_writes + (s.writes or [])) if outer_writes is not None else None
+        out.append((s, v))
+    for s in terms:
+        s.active_loops = {k: x for k, x in s.active_loops.items() if k != rec['key']}
+        s.loops = s.loops + [rec['id']]
+        out.append((s, None))
+    return out
